@@ -14,7 +14,11 @@ $GO build -o bin/instrument ./cmd/instrument || exit 2
 $GO build -overlay .build/setup/overlay/overlay.json -o bin/simcheck ./cmd/simcheck || exit 2
 rc=0
 for p in $(jq -r '.checks[].property_id' MANIFEST.json); do
-  [ "$p" = "C20" ] && continue
+  if [ "$p" = "C20" ]; then
+    # builds the race runtime once (cached afterwards) and checks that identical tapes give identical runs
+    ./run_check.sh C20 determinism 4 || rc=2
+    continue
+  fi
   ./bin/simcheck --selftest determinism --property "$p" --units 12 || rc=2
 done
 exit $rc
